@@ -99,6 +99,7 @@ type State struct {
 	notes    []string
 	depth    int
 	dead     bool
+	mapOwner map[string]mapOwner
 	lockSnap *Snapshot         // state right after the most recent lock acquisition
 	private  map[string]bool   // objects allocated by this call and not yet published
 	birth    map[string]string // reference term -> allocated-set term at the time the value became known
@@ -113,7 +114,7 @@ type ctxRec struct {
 func (e *Engine) newState() *State {
 	return &State{e: e, heap: map[string]string{},
 		declared: map[string]bool{}, nonnil: map[string]bool{}, locks: map[string]string{}, iters: map[string]*Iter{},
-		ctxs: map[string]ctxRec{}, funcs: map[string]*FuncV{}, birth: map[string]string{}, private: map[string]bool{}}
+		ctxs: map[string]ctxRec{}, funcs: map[string]*FuncV{}, birth: map[string]string{}, private: map[string]bool{}, mapOwner: map[string]mapOwner{}}
 }
 
 func (st *State) clone() *State {
@@ -144,6 +145,10 @@ func (st *State) clone() *State {
 	}
 	n.birth = copyMap(st.birth)
 	n.lockSnap = st.lockSnap
+	n.mapOwner = map[string]mapOwner{}
+	for k, v := range st.mapOwner {
+		n.mapOwner[k] = v
+	}
 	n.private = map[string]bool{}
 	for k, v := range st.private {
 		n.private[k] = v
@@ -419,8 +424,8 @@ func (st *State) oblige(kind, label string, props []string, goal string, pos tok
 	ob.ID = e.obID
 	st.script = append(st.script, Line{Kind: lCheck, Ob: ob})
 	e.obligations = append(e.obligations, ob)
-	// after checking, the goal is assumed on the rest of the path
-	st.assume(goal)
+	// The goal is NOT assumed afterwards: every obligation stands on the path condition alone, so that a
+	// check restricted to one property never leans on an unchecked obligation of another property.
 	return ob
 }
 
